@@ -28,6 +28,7 @@ func (b *bmcSys) evalPred(fv *FuncV) *term.T {
 		m := b.newProcMachine(b.procs[0], prefix)
 		m.procMode = false
 		m.curProc = nil
+		m.symHeap = b.predHeap()
 		f.RestoreFresh(snap)
 		b.s.Push()
 		func() {
@@ -53,6 +54,63 @@ func (b *bmcSys) evalPred(fv *FuncV) *term.T {
 		work = append(work, m.pending...)
 	}
 	return f.Or(disj...)
+}
+
+// predHeap is the symbolic heap with never-written cells replaced by their
+// (constant) initial values, so that state predicates do not fork on them.
+func (b *bmcSys) predHeap() map[*Object]Value {
+	if b.prunedHeap != nil {
+		return b.prunedHeap
+	}
+	written := map[*term.T]bool{}
+	for _, t := range b.trans {
+		for v := range t.upd {
+			written[v] = true
+		}
+	}
+	sub := map[*term.T]*term.T{}
+	for _, cv := range b.cells {
+		if !written[cv.v] {
+			sub[cv.v] = cv.init
+		}
+	}
+	memo := map[int]*term.T{}
+	var walk func(v Value) Value
+	walk = func(v Value) Value {
+		switch x := v.(type) {
+		case *term.T:
+			return b.f.Subst(x, sub, memo)
+		case *StructV:
+			o := &StructV{F: make([]Value, len(x.F))}
+			for i := range x.F {
+				o.F[i] = walk(x.F[i])
+			}
+			return o
+		case *ArrayV:
+			o := &ArrayV{E: make([]Value, len(x.E))}
+			for i := range x.E {
+				o.E[i] = walk(x.E[i])
+			}
+			return o
+		case *IfaceV:
+			if x.Tag != nil {
+				t, p := b.f.Subst(x.Tag, sub, memo), b.f.Subst(x.Pay, sub, memo)
+				if t.IsConst() {
+					if t.I == 0 {
+						return &IfaceV{}
+					}
+					return b.w.ifaceFromTag(b.setup, int(t.I), p)
+				}
+				return &IfaceV{Tag: t, Pay: p}
+			}
+		}
+		return v
+	}
+	b.prunedHeap = map[*Object]Value{}
+	for o, v := range b.symHeap {
+		b.prunedHeap[o] = walk(v)
+	}
+	return b.prunedHeap
 }
 
 func (b *bmcSys) check() {
